@@ -29,6 +29,8 @@ type MachineProvider interface {
 
 	StatesList() []fsm.State
 
+	FinStatesList() []fsm.State
+
 	IsFinState(state fsm.State) bool
 }
 
@@ -123,6 +125,21 @@ func Init(machines ...MachineProvider) *FSMPool {
 				p.states[state] = machineName
 			}
 
+		}
+
+		// Finish states which do not start another machine (cancelled rounds)
+		// stay with the machine they were reached in, so that a dump taken in
+		// such a state can be restored, listed and inspected.
+		for _, state := range machine.FinStatesList() {
+			if state == fsm.StateGlobalDone {
+				continue
+			}
+			if _, isInitOfAnother := allInitStatesMap[state]; isInitOfAnother {
+				continue
+			}
+			if _, exists := p.states[state]; !exists {
+				p.states[state] = machineName
+			}
 		}
 	}
 
